@@ -52,6 +52,7 @@ type scenario struct {
 	Archive archiveSpec `json:"archive"`
 	Limits  limitsSpec  `json:"limits"`
 	Fault   *faultSpec  `json:"fault,omitempty"`
+	Entry   string      `json:"entry,omitempty"` // entry point driven on the OS back end ("" = VFS method on the in-memory back end)
 	Note    string      `json:"note,omitempty"`
 }
 
@@ -227,6 +228,13 @@ func coqCase(sc *scenario, ba *builtArchive, o observation, declared map[string]
 }
 
 func runScenario(r *h.Run, sc scenario, emit bool) observation {
+	if sc.Entry != "" {
+		if _, ok := drivers[sc.Entry]; !ok {
+			r.Fail("entry-point-not-driven", "no driver for "+sc.Entry, sc)
+			return observation{}
+		}
+		return runEntryScenario(r, sc)
+	}
 	ba := build(&sc.Archive)
 	o := execute(&sc, ba)
 	r.Eval()
@@ -239,7 +247,7 @@ func runScenario(r *h.Run, sc scenario, emit bool) observation {
 		// the model knows one kind of fault: the removal of an unzipped nested archive is refused
 		modelled = f.Op == "Remove" && f.Path != "" && f.K == 1 && markRemovalFault(ba, sc.Limits.Recursive, f.Path)
 	}
-	oracle(r, &sc, ba, fp, declared, o)
+	oracle(r, &sc, ba, fp, declared, o, "")
 	if emit && modelled && ba.modelExact(sc.Limits.Recursive) {
 		r.Case(coqCase(&sc, ba, o, declared), map[string]any{"scenario": sc, "observed": o})
 	}
@@ -274,6 +282,8 @@ func main() {
 		sc := genScenario(r)
 		runScenario(r, sc, i < emitN)
 	}
+	// every public entry point, on the OS back end
+	driveEntryPoints(r)
 	// fault injection on the extraction's own back-end operations, limits close to what the content needs
 	nf := r.N(400, 4000)
 	for i := 0; i < nf; i++ {
